@@ -106,6 +106,8 @@ pub fn model_of(st: &ArchState, m: &RawMachine) -> Ref {
         io: m.bus().clone(),
         ram_accesses: 0,
         steps: 0,
+        pc_trace: vec![],
+        sp_trace: vec![],
     }
 }
 
@@ -124,6 +126,8 @@ pub fn model_from_machine(m: &RawMachine) -> Ref {
         io: m.bus().clone(),
         ram_accesses: 0,
         steps: 0,
+        pc_trace: vec![],
+        sp_trace: vec![],
     }
 }
 
